@@ -224,20 +224,31 @@ func trimResultsToRange(dr *planner.DateRange, rowlen int, src []byte) (dest []b
 		cursor += rowLength
 	}
 
+	// find the end of the range: keep the records up to the last one that is not after the end.
+	// (When no record qualifies the result is empty; this used to leave dest untouched, and the
+	// test was skipped altogether for a single record, so records after the end were returned.)
 	nrecords = len(dest) / rowLength
-	if nrecords <= 1 {
-		return dest
-	}
+	end := 0
 	for i := nrecords; i > 0; i-- {
 		cursor = (i - 1) * rowLength
 		t := TimeOfVariableRecord(dest, cursor, rowLength)
-		if t.Equal(dr.End) || t.Before(dr.End) {
-			dest = dest[:cursor+rowLength]
+		if !afterEnd(t, dr.End) {
+			end = cursor + rowLength
 			break
 		}
 	}
 
-	return dest
+	return dest[:end]
+}
+
+// afterEnd reports whether t is after the end of a date range. The "unbounded" ends used by the
+// planner and the frontend (year 292277024627, time.Unix(math.MaxInt64, 0)) overflow time.Time's
+// internal seconds counter, so Before/After give wrong answers for them; Unix() does not.
+func afterEnd(t, end time.Time) bool {
+	if t.Unix() != end.Unix() {
+		return t.Unix() > end.Unix()
+	}
+	return t.Nanosecond() > end.Nanosecond()
 }
 
 func TimeOfVariableRecord(buf []byte, cursor, rowLength int) time.Time {
